@@ -72,6 +72,11 @@ Definition release_step (h : Z) (d : dump) (o : obs) (d' : dump) : bool :=
       store_eqb dg_eqb (d_dg d')
         (map (fun kv => (fst kv, mkDG (dg_sh (snd kv)) (dg_wait (snd kv) - sum_rel rel kdg (fst kv) ur_amt))) (d_dg d)) &&
       store_eqb Z.eqb (d_tot d') (d_tot d) && store_eqb Z.eqb (d_hold d') (d_hold d) &&
+      (* native token: each released record is paid, exactly its ActualCompletedAmount, from the escrow account to its staker's bank account *)
+      (let paid k := zsum (map (fun kv => if is_native (ur_asset (snd kv)) && String.eqb (ur_staker (snd kv)) k then ur_act (snd kv) else 0) rel) in
+       let out := zsum (map (fun kv => if is_native (ur_asset (snd kv)) then ur_act (snd kv) else 0) rel) in
+       store_eqb Z.eqb (d_bank d')
+         (map (fun kv => (fst kv, snd kv + paid (fst kv) - (if String.eqb (fst kv) pool_key then out else 0))) (d_bank d))) &&
       store_eqb (list_eqb String.eqb) (d_sl d') (d_sl d) &&
       (* every other record stays, and no record appears *)
       forallb (fun kv => existsb (fun x => String.eqb (fst x) (fst kv)) rel || has_key (d_ur d') (fst kv)) (d_ur d) &&
@@ -79,6 +84,21 @@ Definition release_step (h : Z) (d : dump) (o : obs) (d' : dump) : bool :=
   | _ => true
   end.
 Definition mon_release : case -> option nat := mon_with (fun _ => true) release_step.
+
+(* --- slashing applied while pending is recorded: when a native-restaking balance decrease is booked against the staker
+       (the amount the implementation debits from the staker's TotalDepositAmount, reported by the harness as GNstM), exactly
+       that much disappears from what the staker can still get: withdrawable balance, ActualCompletedAmount of the pending
+       records it went through, delegated pools - so a record that absorbed part of the decrease pays out that much less --- *)
+Definition pending_slash_step (h : Z) (d : dump) (o : obs) (d' : dump) : bool :=
+  match o_op o, o_res o with
+  | NstBalance _ a x, ROk =>
+      if x <? 0 then
+        let booked := zsum (map (fun e => match e with GNstM b m => if_eq b a m | _ => 0 end) (o_gev o)) in
+        value_d a d - value_d a d' =? booked
+      else true
+  | _, _ => true
+  end.
+Definition mon_pending_slash : case -> option nat := mon_with (fun _ => true) pending_slash_step.
 
 (* --- acceptance: an undelegation of 0 < x <= position (TokensFromShares of the staker's share) from a registered
        operator is accepted and creates exactly one record; a withdrawal of 0 <= x <= withdrawable is accepted --- *)
